@@ -88,13 +88,17 @@ type c15Snap struct {
 	Kept    []string
 	Uncap   int
 	SfRec   spg.CharRecipe
+	// the exported package variables are caller-visible state too
+	MaxTrials   int
+	MaxFailRate float64
 }
 
 func (x *c15World) snap() c15Snap {
 	s := c15Snap{C: spg.CharRecipe{Length: x.c.Length, Allow: x.c.Allow, Require: x.c.Require, Exclude: x.c.Exclude, AllowChars: x.c.AllowChars, ExcludeChars: x.c.ExcludeChars},
 		WLen: x.w.Length, WCap: x.w.Capitalize, WSepCh: x.w.SeparatorChar, WSepNil: x.w.SeparatorFunc == nil,
 		Words: append([]string{}, x.words...), Kept: spg.VerifWords(x.wl), Uncap: spg.VerifUncapitalizable(x.wl),
-		SfRec: spg.CharRecipe{Length: x.sfRec.Length, AllowChars: x.sfRec.AllowChars}}
+		SfRec:     spg.CharRecipe{Length: x.sfRec.Length, AllowChars: x.sfRec.AllowChars},
+		MaxTrials: spg.MaxTrials, MaxFailRate: spg.MaxFailRate}
 	if x.c.RequireSets != nil {
 		s.Req = append([]string{}, x.c.RequireSets...)
 	}
@@ -158,6 +162,12 @@ func c15Ops() []c15Op {
 		}},
 		{Name: "sf()", Tape: 1, Query: func(x *c15World) string {
 			return safe(func() string { s, e := x.sf(); return fmt.Sprintf("%q %08x", s, math.Float32bits(float32(e))) })
+		}},
+		{Name: "sfBad()", Tape: 0, Query: func(x *c15World) string {
+			// a separator function whose recipe cannot be honoured (two
+			// disjoint required sets, one character): the documented error path
+			bad := spg.NewSFFunction(spg.CharRecipe{Length: 1, AllowChars: "ab", RequireSets: []string{"1", "2"}})
+			return safe(func() string { s, e := bad(); return fmt.Sprintf("%q %08x", s, math.Float32bits(float32(e))) })
 		}},
 		{Name: "Generate(w) on a source that fails at read 2 (panic recovered)", Tape: 2, Query: func(x *c15World) string { return renderGen(runGen(x.w.Generate)) }},
 		{Name: "Generate(c) on a source that fails at read 2 (panic recovered)", Tape: 2, Query: func(x *c15World) string { return renderGen(runGen(x.c.Generate)) }},
@@ -287,6 +297,10 @@ func c15Model(x *c15World, op, got string) string {
 				return msg
 			}
 		}
+	case op == "sfBad()":
+		if got != `"" 00000000` {
+			return "a separator function whose recipe is refused yields the empty separator with no entropy"
+		}
 	case op == "Entropy(w)":
 		var bits uint32
 		fmt.Sscanf(got, "%08x", &bits)
@@ -299,7 +313,11 @@ func c15Model(x *c15World, op, got string) string {
 }
 
 // c15Seq runs one operation sequence from a fresh world.
+var c15T0, c15R0 = spg.MaxTrials, spg.MaxFailRate
+
 func c15Seq(c *core.Ctx, ops []c15Op, seq []int) bool {
+	spg.MaxTrials, spg.MaxFailRate = c15T0, c15R0
+	defer func() { spg.MaxTrials, spg.MaxFailRate = c15T0, c15R0 }()
 	x := newWorld()
 	names := make([]string, len(seq))
 	for i, k := range seq {
@@ -386,6 +404,10 @@ func c15CharPool() []ref.CharRecipe {
 	add(ref.CharRecipe{Allow: ref.Symbols, Require: ref.Digits})
 	add(ref.CharRecipe{Allow: ref.Digits | ref.Symbols})
 	add(ref.CharRecipe{Allow: ref.Digits, Exclude: ref.Ambiguous})
+	add(ref.CharRecipe{Allow: ref.Digits, Exclude: ref.Ambiguous, ExcludeChars: "89"})
+	add(ref.CharRecipe{Allow: ref.Digits | ref.Symbols, Exclude: ref.Ambiguous | ref.Symbols})
+	add(ref.CharRecipe{Allow: ref.All, Exclude: ref.Ambiguous})
+	add(ref.CharRecipe{Allow: ref.Digits | ref.Symbols, Exclude: ref.Ambiguous, ExcludeChars: "@*"})
 	add(ref.CharRecipe{Allow: ref.Digits | ref.Ambiguous})
 	add(ref.CharRecipe{Allow: ref.Digits, Exclude: ref.Symbols})
 	add(ref.CharRecipe{Allow: 1, Require: 23})
@@ -492,7 +514,11 @@ func c15Pairs(c *core.Ctx) {
 		for _, L := range []int{2, 3} {
 			for _, cp := range []string{"none", "random", "one"} {
 				for _, sp := range []Sep{{Kind: "none"}, {Kind: "char", Char: "-"}, {Kind: "SFDigits1"}, {Kind: "SFDigits2"}, {Kind: "SFSymbols"}, {Kind: "SFDigitsNoAmbiguous1"},
-					{Kind: "sf", Recipe: &ref.CharRecipe{Length: 1, AllowChars: "xy"}}, {Kind: "sf", Recipe: &ref.CharRecipe{Length: 1, AllowChars: "xyz"}}} {
+					{Kind: "sf", Recipe: &ref.CharRecipe{Length: 1, AllowChars: "xy"}}, {Kind: "sf", Recipe: &ref.CharRecipe{Length: 1, AllowChars: "xyz"}},
+					{Kind: "sf", Recipe: &ref.CharRecipe{Length: 1, AllowChars: "ab", RequireSets: []string{"1", "2"}}}} {
+					if sp.Recipe != nil && len(sp.Recipe.RequireSets) > 0 && (L == 3 || cp == "one") {
+						continue // the refused separator recipe: a few recipes suffice
+					}
 					w := WLCase{Words: ws, Length: L, Cap: cp, Sep: sp}
 					r := spg.NewWLRecipe(L, l)
 					r.Capitalize = spg.CapScheme(cp)
@@ -510,7 +536,14 @@ func c15Pairs(c *core.Ctx) {
 			}
 		}
 	}
-	use := func(x wr) string {
+	t0, r0 := spg.MaxTrials, spg.MaxFailRate
+	use := func(x wr) (msg string) {
+		defer func() {
+			if msg == "" && (spg.MaxTrials != t0 || spg.MaxFailRate != r0) {
+				msg = fmt.Sprintf("the package variables changed: MaxTrials %d -> %d, MaxFailRate %g -> %g", t0, spg.MaxTrials, r0, spg.MaxFailRate)
+				spg.MaxTrials, spg.MaxFailRate = t0, r0
+			}
+		}()
 		install(policyTape(c15Tapes[0]))
 		e := float64(x.r.Entropy())
 		if want := x.w.entropyModel(); math.IsNaN(e) || math.Abs(e-want) > 4*ref.Ulp32(want) {
@@ -534,9 +567,13 @@ func c15Pairs(c *core.Ctx) {
 			if i == j || !c.Mine() {
 				continue
 			}
-			use(a)
+			msgA := use(a)
 			c.Count("executions", 4)
 			c.Count("pairs_checked", 1)
+			if strings.HasPrefix(msgA, "the package variables changed") {
+				c.Violation("pair wordlist", fmt.Sprintf("using recipe %s: %s", mustJSON(a.w), msgA), map[string]interface{}{"first_wl": a.w, "second_wl": a.w})
+				return
+			}
 			if msg := use(b); msg != "" {
 				c.Violation("pair wordlist", fmt.Sprintf("after using recipe %s, recipe %s (same word list object: %v) answers wrongly: %s", mustJSON(a.w), mustJSON(b.w), a.r.Size() == b.r.Size(), msg),
 					map[string]interface{}{"first_wl": a.w, "second_wl": b.w})
